@@ -45,8 +45,14 @@ func headerToMap(header []byte) (map[string]string, error) {
 	offset := 0
 	m := make(map[string]string)
 	for offset < len(header) {
+		if len(header)-offset < 4 {
+			return nil, fmt.Errorf("short header field length")
+		}
 		fieldlen := binary.LittleEndian.Uint32(header[offset : offset+4])
 		offset += 4
+		if uint64(fieldlen) > uint64(len(header)-offset) {
+			return nil, fmt.Errorf("header field length %d exceeds header", fieldlen)
+		}
 		index := bytes.IndexByte(header[offset:offset+int(fieldlen)], '=')
 		if index < 0 {
 			return nil, fmt.Errorf("missing kv separator")
@@ -73,6 +79,9 @@ func extractHeaderValue(header []byte, key []byte) ([]byte, error) {
 		fieldlen, offset, err = getUint32(header, offset)
 		if err != nil {
 			return nil, fmt.Errorf("failed to extract field length: %w", err)
+		}
+		if uint64(fieldlen) > uint64(len(header)-offset) {
+			return nil, fmt.Errorf("header field length %d exceeds header", fieldlen)
 		}
 		field := header[offset : offset+int(fieldlen)]
 		separatorIdx := bytes.Index(field, []byte{'='})
@@ -132,7 +141,7 @@ func processBag(
 
 		// header
 		if len(header) < int(headerlen) {
-			header = make([]byte, headerlen*2)
+			header = make([]byte, uint64(headerlen)*2)
 		}
 		_, err = io.ReadFull(activeReader, header[:headerlen])
 		if err != nil {
@@ -154,10 +163,14 @@ func processBag(
 			return err
 		}
 
+		if len(opcode) == 0 {
+			return fmt.Errorf("empty op field")
+		}
+
 		if opcode[0] == OpBagChunk {
 			// data
 			if len(chunkData) < int(datalen) {
-				chunkData = make([]byte, datalen*2)
+				chunkData = make([]byte, uint64(datalen)*2)
 			}
 			_, err = io.ReadFull(activeReader, chunkData[:datalen])
 			if err != nil {
@@ -165,7 +178,7 @@ func processBag(
 			}
 		} else {
 			if len(data) < int(datalen) {
-				data = make([]byte, datalen*2)
+				data = make([]byte, uint64(datalen)*2)
 			}
 			_, err = io.ReadFull(activeReader, data[:datalen])
 			if err != nil {
@@ -246,6 +259,9 @@ func Bag2MCAP(w io.Writer, r io.Reader, opts *mcap.WriterOptions, messageCallbac
 			if err != nil {
 				return err
 			}
+			if len(conn) < 4 {
+				return fmt.Errorf("short conn field: %d bytes", len(conn))
+			}
 			connID := binary.LittleEndian.Uint32(conn)
 			topic, err := extractHeaderValue(header, headerTopic)
 			if err != nil {
@@ -294,10 +310,16 @@ func Bag2MCAP(w io.Writer, r io.Reader, opts *mcap.WriterOptions, messageCallbac
 			if err != nil {
 				return err
 			}
+			if len(conn) < 4 {
+				return fmt.Errorf("short conn field: %d bytes", len(conn))
+			}
 			connID := binary.LittleEndian.Uint32(conn)
 			time, err := extractHeaderValue(header, headerTime)
 			if err != nil {
 				return err
+			}
+			if len(time) < 8 {
+				return fmt.Errorf("short time field: %d bytes", len(time))
 			}
 			nsecs := rosTimeToNanoseconds(time)
 			channelID, err := channelIDForConnection(connID)
